@@ -680,7 +680,11 @@ def main(tier):
     from . import c20
 
     words = ["false", "true", "(false)", "(true)", "~false", "~true", "a", "~a", "false & a", "a | false", "false ^ true", "true & false", "(false) | (false)", "~(false)", "foo & ~bar | false",
-             "knot & b", "cannot | a", "not & a", "and | or", "xor ^ not", "band & nor", "(knot ) & b", "whatnot ^ knot"]
+             "knot & b", "cannot | a", "not & a", "and | or", "xor ^ not", "band & nor", "(knot ) & b", "whatnot ^ knot",
+             # operators of different strength side by side without parentheses (the JSON nests as the language binds them)
+             "a ^ b & c", "a & b ^ c", "a | b & c", "a & b | c", "a ^ b | c", "a | b ^ c", "~a ^ b", "~a & b | c", "a & b | c ^ d & e", "a ^ b ^ c & d | e", "~~a", "~ ~a & b",
+             # many distinct variables (the json command has no reason to care how many there are)
+             " & ".join("v" + chr(97 + k) for k in range(17)), " | ".join("w" + chr(97 + k) for k in range(26)), " ^ ".join(chr(97 + k) + chr(97 + j) for k in range(8) for j in range(5))]
     leaves = ["a", "b", "true", "false", "knot", "not", "or"]
     for _ in range(150 if tier == "quick" else 1500):
         n = rng.randint(1, 4)
